@@ -395,7 +395,10 @@ func (f *File) readWithoutLocking(p []byte) (n int, err error) {
 					return
 				}
 
-				// Hand the error to whoever reads from the pipe
+				// Hand the error to whoever reads from the pipe; a restore that ends early must not look like the end of the file
+				if err == io.EOF {
+					err = io.ErrUnexpectedEOF
+				}
 				_ = writer.CloseWithError(err)
 
 				return
